@@ -112,6 +112,15 @@ def _twins(pendulum, b):
     return [t for t in out if obs.td_us(t) == b]
 
 
+_PARIS = []
+
+
+def _paris(pendulum):
+    if not _PARIS:
+        _PARIS.append(pendulum.DateTime.create(2024, 3, 30, 12, 0, 0, 0, tz=pendulum.timezone("Europe/Paris")))
+    return _PARIS[0]
+
+
 def check_pair(acc, pendulum, a, b):
     da, db = mk_dur(pendulum, a), mk_dur(pendulum, b)
     ta, tb = mk_td(a), mk_td(b)
@@ -152,6 +161,21 @@ def check_pair(acc, pendulum, a, b):
         for rname, right in (("Duration", db), ("timedelta", tb)):
             _compare(acc, pendulum, oname, f"D-{rname}", case, lambda: op(da, right), lambda: op(ta, tb), wt)
         _compare(acc, pendulum, oname, "timedelta-left", case, lambda: op(ta, db), lambda: op(ta, tb), None)
+    # Intervals as right operands of the division family (an Interval's own length is the elapsed time, whatever its calendar
+    # breakdown says): between UTC values and between values of a DST zone around its spring change
+    if b and abs(b) < 9000 * 365 * 86400 * US:
+        for lbl, start in (("utc", pendulum.DateTime(2, 1, 1, tzinfo=pendulum.UTC) if b > 0 else pendulum.DateTime(9998, 1, 1, tzinfo=pendulum.UTC)),
+                           ("paris", _paris(pendulum))):
+            try:
+                iv = (start + tb) - start
+            except (OverflowError, ValueError):
+                continue
+            if obs.td_us(iv) != b:
+                acc.c["seed_not_canonical"] += 1
+                continue
+            for oname, op, wt in (("floordiv", operator.floordiv, "number"), ("truediv", operator.truediv, "number"),
+                                  ("mod", operator.mod, "Duration"), ("divmod", divmod, ("number", "Duration"))):
+                _compare(acc, pendulum, oname, f"D-Interval/{lbl}", dict(case, right="Interval/" + lbl), lambda: op(da, iv), lambda: op(ta, tb), wt)
     for oname, op in (("eq", operator.eq), ("ne", operator.ne), ("lt", operator.lt), ("le", operator.le),
                       ("gt", operator.gt), ("ge", operator.ge)):
         _compare(acc, pendulum, "compare", f"{oname}-DD", case, lambda: op(da, db), lambda: op(ta, tb))
